@@ -88,6 +88,10 @@ def decompress_code(code: bytes) -> bytes:
 
     if code_comp_size <= code_len:
         comp_start = code_len - code_comp_size
+    else:
+        # the compressed region can not be larger than the data it is part of; without this check the zero-filled
+        # extension is read as input and a 16-byte file keeps the loop busy for up to 2**24 control bytes
+        raise CodeDecompressionError('code_comp_size > code_len')
 
     if code_comp_end < 0:
         raise CodeDecompressionError('code_comp_end < 0')
